@@ -4,7 +4,7 @@
 (* arithmetic.                                                                *)
 (*                                                                            *)
 (* A model instance is a record                                               *)
-(*   [name, L (motif length 1|3), kind ("word"|"monomer"|"conditional"|"none"),*)
+(*   [name, L (motif length 1|2|3), kind ("word"|"monomer"|"conditional"|"none"),*)
 (*    params: sequence of <<predicate name, rational value>>, pi: motif probs] *)
 (* States are words over T,C,A,G (sense codons of the standard code for L=3). *)
 (*   Inst(i,j)   == i and j differ at exactly one position                     *)
@@ -32,8 +32,9 @@ StdAA == <<"F","F","L","L","S","S","S","S","Y","Y","*","*","C","C","*","W",
 AA(w) == StdAA[16 * (NIdx(w[1]) - 1) + 4 * (NIdx(w[2]) - 1) + (NIdx(w[3]) - 1) + 1]
 
 AllWords(L) == IF L = 1 THEN {<<a>> : a \in NucSet}
+               ELSE IF L = 2 THEN {<<a, b>> : a \in NucSet, b \in NucSet}
                ELSE {<<a, b, c>> : a \in NucSet, b \in NucSet, c \in NucSet}
-States(L) == IF L = 1 THEN AllWords(1) ELSE {w \in AllWords(3) : AA(w) # "*"}
+States(L) == IF L \in {1, 2} THEN AllWords(L) ELSE {w \in AllWords(3) : AA(w) # "*"}
 
 Diffs(i, j) == {p \in 1..Len(i) : i[p] # j[p]}
 Inst(i, j) == Cardinality(Diffs(i, j)) = 1
@@ -77,7 +78,8 @@ Factor(ps, i, j) == IF ps = <<>> THEN One
                               Factor(Tail(ps), i, j))
 
 (* word probabilities: the distribution the calibration (and stationarity) refers to *)
-MonoProd(m, w) == RMul(RMul(m.pi[<<w[1]>>], m.pi[<<w[2]>>]), m.pi[<<w[3]>>])
+MonoProd(m, w) == IF m.L = 2 THEN RMul(m.pi[<<w[1]>>], m.pi[<<w[2]>>])
+                  ELSE RMul(RMul(m.pi[<<w[1]>>], m.pi[<<w[2]>>]), m.pi[<<w[3]>>])
 WordProbs(m) ==
     IF m.kind = "monomer"
     THEN LET S == States(m.L)
